@@ -18,6 +18,7 @@ def c01(run):
     run.trace("big-frames", Q(run, 4, 12), types=["sse.SseBinary", "szse.SzseBinary", "risk.RcBinary", "sample.RootPacket", "bse.BjseBinary"], seed_off=300, chunk=30)
     run.trace("stream", Q(run, 2, 30), seed_off=100)
     run.trace("prim-sweep", Q(run, 1, 2), seed_off=200, chunk=600)
+    run.trace("roundtrip-canon", Q(run, 1, 20), seed_off=600, poison=2, small=True)
     run.assumptions += ["canonical domain decided by Canonical(T, v) in Codec.tla", "self-computed fields compared with the object the encoder left behind (their correctness is C04/C05)"]
     return run.finish(RULE_TRACE)
 
@@ -32,8 +33,17 @@ def c02(run):
     run.trace("prim-sweep", Q(run, 1, 2), seed_off=400, chunk=600)
     run.trace("neighbours", Q(run, 1, 4), seed_off=500)
     run.trace("registry-frames", Q(run, 20, 1000), types=["sse.SseBinary", "szse.SzseBinary", "sample.RootPacket"], seed_off=300)
+    run.trace("roundtrip-canon", Q(run, 1, 20), seed_off=600, poison=2, small=True)
     run.assumptions += ["the pinned schema was frozen from the pinned commit (the .pdsl sources are not in the repository); byte order is per protocol, taken from the scalar fields"]
     return run.finish(RULE_TRACE)
+
+
+FRAMES5 = ["sse.SseBinary", "szse.SzseBinary", "risk.RcBinary", "sample.RootPacket", "bse.BjseBinary"]
+
+RULE_POISON = ("Poisoned reruns (driver+poisonN): the same histories with the library made to fail first - an Encode refused after it wrote something "
+               "(unregistered key below a frame, a list too long for its prefix inside a body), a Decode refused (unregistered frame type with body bytes "
+               "behind it, a message cut short) - before every history (1) and before every encode/decode of it (2), on objects and buffers of their own; "
+               "the collector runs only between histories so that pooled scratch objects survive as they would in an application. ")
 
 
 def wire_design(run, devs, mode="clauses"):
@@ -58,6 +68,10 @@ def c04(run):
     run.trace("encode-any", Q(run, 30, 300), types=frames, seed_off=100)
     run.trace("tables", Q(run, 1, 3), types=frames, seed_off=200)
     run.trace("huge-frames", Q(run, 1, 2), seed_off=300)
+    run.trace("history", Q(run, 16, 160), types=frames, seed_off=400, poison=2, small=True)
+    run.trace("history", Q(run, 16, 160), types=frames, seed_off=450, poison=1, small=True)
+    # run-time registrations: a key of a frame table overridden with another body type - the length is that of the body actually emitted
+    run.trace("tables-dynamic", Q(run, 2, 20), seed_off=500, patch_tables=True)
     return run.finish(RULE_WIRE + RULE_TRACE + "huge-frames: bodies of 64 KiB .. 16 MiB (thorough: 40 MiB), judged on the head of the frame and its size. Frames only (the four length-computing frame types x all their registered bodies).")
 
 
@@ -71,6 +85,7 @@ def c05(run):
     run.trace("big-frames", Q(run, 4, 12), types=frames, seed_off=300, chunk=30)
     # the services are shared by all encoders: frames encoded by 16 goroutines at once must carry correct checksums too
     run.parallel("history", Q(run, 30, 200), goroutines=16, rounds=2, seed_off=400, types=frames, race_filter="codec/checksum.go", prop_clauses="C05")
+    run.trace("history", Q(run, 16, 160), types=frames, seed_off=500, poison=2, small=True)
     run.assumptions += ["the four checksum services are registered (library start-up state)"]
     return run.finish(RULE_WIRE + RULE_TRACE + "Frames only (the three checksummed frame types x all their registered bodies).")
 
@@ -83,7 +98,10 @@ def c06(run):
     run.trace("history", Q(run, 6, 60), types=FR, seed_off=150)
     run.trace("big-frames", Q(run, 3, 12), types=FR, seed_off=200, chunk=30)
     run.trace("encode-reuse", Q(run, 4, 20), seed_off=300)
-    return run.finish(RULE_WIRE + RULE_TRACE)
+    run.trace("history", Q(run, 20, 200), types=FR, seed_off=400, poison=2, small=True)
+    run.trace("history", Q(run, 20, 200), types=FR, seed_off=450, poison=1, small=True)
+    run.trace("history", Q(run, 1, 10), seed_off=500, poison=1, small=True)
+    return run.finish(RULE_WIRE + RULE_TRACE + RULE_POISON)
 
 
 def c07(run):
@@ -91,7 +109,8 @@ def c07(run):
     run.trace("stream", Q(run, 3, 120))
     run.trace("long-lists", Q(run, 1, 2), seed_off=100, chunk=8)
     run.trace("prim-sweep", Q(run, 1, 2), seed_off=200, chunk=600)
-    return run.finish(RULE_WIRE + RULE_TRACE + "long-lists: lists whose count x element size crosses 65,536 followed by a second message.")
+    run.trace("stream", Q(run, 1, 20), seed_off=300, poison=2, small=True)
+    return run.finish(RULE_WIRE + RULE_TRACE + RULE_POISON + "long-lists: lists whose count x element size crosses 65,536 followed by a second message.")
 
 
 def c08(run):
@@ -99,6 +118,7 @@ def c08(run):
     run.trace("reencode", Q(run, 5, 300))
     run.trace("big-frames", Q(run, 4, 12), types=["sse.SseBinary", "szse.SzseBinary", "risk.RcBinary", "sample.RootPacket", "bse.BjseBinary"], seed_off=300, chunk=30)
     run.trace("neighbours", Q(run, 1, 4), seed_off=500)
+    run.trace("reencode", Q(run, 1, 30), seed_off=600, poison=2, small=True)
     path, st = run.child_trace(run.spec_images(Q(run, 2, 40)), "spec-images")
     run.judge(path, st, "spec-images")
     return run.finish(RULE_TRACE + "A: wire images rendered by the specification (Images.tla: the pinned rendering of sample values of all 170 types with every fixed text "
@@ -114,6 +134,9 @@ def c09(run):
     run.judge(path, st, "hostile")
     path, st = run.child_trace(run.gen_histories("hostile-prims", 1), "hostile-prims")
     run.judge(path, st, "hostile-prims")
+    # refusals by several goroutines at once (unregistered keys of every frame table): the plain build, several processes
+    for k in range(Q(run, 3, 10)):
+        run.parallel("tables", 1, goroutines=16, rounds=1, race_filter="RESULTS-ONLY", prop_clauses="C09", types=FRAMES5, race=False, seed_off=900 + k)
     run.assumptions += ["totality of the Go decoders is sampled, not proved", "abort = the child process died under ulimit -v 1.5 GiB; hang = a call did not return after 2 s + 1 us/byte of CPU time of its process (or 30x that in wall-clock time)"]
     return run.finish(RULE_HOSTILE)
 
@@ -149,12 +172,14 @@ def c11(run):
     run.trace("cut", Q(run, 1, 24), chunk=4000)
     run.trace("prim-cut", Q(run, 1, 8), seed_off=100)
     run.trace("prim-sweep", Q(run, 1, 2), seed_off=200, chunk=600)
-    return run.finish(RULE_TRACE + "Every cut position 0..len-1 of each encoding (all cuts within the first/last 150 bytes plus 100 random ones for encodings over 400 bytes).")
+    run.trace("cut", Q(run, 1, 8), seed_off=300, chunk=4000, poison=2)
+    return run.finish(RULE_TRACE + RULE_POISON + "Every cut position 0..len-1 of each encoding (all cuts within the first/last 150 bytes plus 100 random ones for encodings over 400 bytes).")
 
 
 def c12(run):
     run.trace("tables", Q(run, 1, 8))
     run.trace("tables-dynamic", Q(run, 2, 30), seed_off=100, patch_tables=True)
+    run.trace("tables", Q(run, 1, 4), seed_off=200, poison=1, small=True)
     return run.finish(RULE_TRACE + "tables-dynamic: one new key and one overridden key per table registered through the exported Registry...Factory functions in a "
                       "process of its own; the specification then judges that run against the pinned tables patched with the logged registrations. "
                       "All 18 tables x all 226 registered keys x unregistered keys (numeric: every key +-1, byte-swapped, 0, all-ones, 16 random; text: all 512 3-character strings over an 8-symbol alphabet plus prefixes/extensions of registered keys).")
@@ -162,11 +187,14 @@ def c12(run):
 
 def c15(run):
     run.trace("dirty", Q(run, 3, 150))
+    run.trace("dirty", Q(run, 1, 20), seed_off=100, poison=1, small=True)
     return run.finish(RULE_TRACE)
 
 
 def c16(run):
     run.trace("alias", Q(run, 3, 150))
+    # caches and intern tables behave differently under contention: the same histories by 16 goroutines at once (judged on the results only)
+    run.parallel("alias", Q(run, 1, 10), goroutines=16, rounds=Q(run, 2, 4), seed_off=100, race_filter="RESULTS-ONLY", prop_clauses="C16", abort_violates=False)
     run.assumptions += ["aliasing is detected through observable value change only"]
     return run.finish(RULE_TRACE)
 
@@ -175,7 +203,10 @@ def c17(run):
     run.trace("encode-any", Q(run, 4, 200))
     run.trace("tables", Q(run, 1, 2), seed_off=100)
     run.trace("list-counts", Q(run, 1, 2), seed_off=200, chunk=120)
-    return run.finish(RULE_TRACE)
+    run.trace("encode-any", Q(run, 1, 20), seed_off=300, poison=2, small=True)
+    # encoders of all protocols at once (shared look-ups on the way): a panic or a process abort is this property's, a race is C20's
+    run.parallel("encode-any", Q(run, 2, 20), goroutines=16, rounds=Q(run, 3, 6), seed_off=400, race_filter="RESULTS-ONLY", prop_clauses="C17")
+    return run.finish(RULE_TRACE + RULE_POISON)
 
 
 RULE_PRIM = ("direction B at primitive level: the real codec primitives (every generic instantiation named) are called with seeded/"
@@ -195,7 +226,8 @@ def c03(run):
     run.trace("prim-pairs", Q(run, 1, 6))
     run.trace("roundtrip-canon", Q(run, 3, 40), types=[t for t in all_types() if t.split(".")[0] in ("bse", "sample")], seed_off=100)
     run.trace("roundtrip-canon", Q(run, 1, 10), seed_off=200)
-    return run.finish(RULE_PRIMMODEL + RULE_PRIM + RULE_TRACE)
+    run.trace("roundtrip-canon", Q(run, 1, 10), seed_off=300, poison=2, small=True)
+    return run.finish(RULE_PRIMMODEL + RULE_PRIM + RULE_TRACE + RULE_POISON)
 
 
 def c13(run):
@@ -203,6 +235,8 @@ def c13(run):
     run.trace("prim-fixed", Q(run, 2, 100))
     run.trace("prim-fixed-sweep", 1, seed_off=100)
     run.trace("prim-fixed-counts", Q(run, 1, 2), seed_off=200, chunk=40)
+    # the same calls by 16 goroutines at once, each on its own buffer, pad bytes and sides mixed: judged on the results of the calls only
+    run.parallel("prim-fixed", Q(run, 2, 20), goroutines=16, rounds=Q(run, 3, 6), seed_off=300, race_filter="RESULTS-ONLY", prop_clauses="C13", abort_violates=False)
     return run.finish(RULE_PRIMMODEL + RULE_PRIM + "Widths 0..5,10,16,200; pads 00,20,30,80,E9,FF and a random one; both sides; texts of length 0..N+2 over {pad,00,20,41,C3,A9,FF,30} and random bytes; lists of widths 1,3,8,10,16 with counts 0..64, around every multiple of 128 up to 2048, the multiples of 100 up to 2000, 4096, 8192 (thorough: up to 65535), written over stale spare capacity.")
 
 
@@ -210,6 +244,8 @@ def c14(run):
     run.trace("calc", Q(run, 1, 30), chunk=3000)
     run.trace("calc-giant", Q(run, 1, 2), seed_off=100)
     run.trace("calc-reuse", Q(run, 1, 6), seed_off=150)
+    # the services are shared objects: the same calls by 16 goroutines at once, each on its own buffer (judged on the results only)
+    run.parallel("calc", 1, goroutines=16, rounds=Q(run, 2, 6), seed_off=300, race_filter="RESULTS-ONLY", prop_clauses="C14", abort_violates=False)
     if run.tier == "thorough":
         run.trace("calc-exhaustive2", 1, seed_off=200, chunk=20000)
     return run.finish(RULE_PRIM + "All strings of <= 1 byte, 2-byte strings over a 32-symbol boundary alphabet (all 65,536 in the thorough tier), 3-byte strings over 8 symbols, "
@@ -270,6 +306,7 @@ def c20(run):
     run.parallel("stream", Q(run, 1, 6), goroutines=8, rounds=1, seed_off=200)
     run.parallel("encode-reuse", Q(run, 4, 12), goroutines=16, rounds=1, seed_off=300)
     run.parallel("trim-sides", Q(run, 8, 40), goroutines=16, rounds=Q(run, 2, 4), seed_off=400)
+    run.parallel("roundtrip-canon", Q(run, 1, 6), goroutines=16, rounds=Q(run, 2, 4), seed_off=500, poison=2, small=True)
     run.assumptions += ["hidden shared state is found by the race detector and by results that differ from the solo run under contention: with high but not certain probability",
                         "discriminator tables and checksum services are only read after start-up (the side goroutines register/remove unrelated names only)"]
     return run.finish("design model: Parallel.tla (NonInterference; deviations SharedScratch and ClearOnSide must fail). B: the drivers' histories (all 170 types, "
